@@ -10,7 +10,7 @@ from vlib import ToolError
 
 QUICK = [("Gen_Wake_1x1", None), ("Gen_Wake_1x1ab", None), ("Gen_Wake_1x2", None), ("Gen_Wake_2x1", 250), ("Gen_Wake_2bx1", 250)]
 THOROUGH = [("Gen_Wake_1x1", None), ("Gen_Wake_1x1ab", None), ("Gen_Wake_1x2", None), ("Gen_Wake_2x1", None), ("Gen_Wake_2bx1", None), ("Gen_Wake_2x2", 6000)]
-KINDS = ["publish", "modack0", "seek", "ackpred", "dlforward", "seeksnap"]
+KINDS = ["publish", "modack0", "seek", "ackpred", "dlforward", "seeksnap", "dlpred"]
 
 
 def gen_schedules(ctx, module):
@@ -78,7 +78,7 @@ def _run(ctx, replay):
                     for k in KINDS:
                         t = sorted(s["targets"]["x1"])
                         allsubs = sorted(set(t) | set(s["wsub"].values()))
-                        if (k in ("publish", "dlforward") and t != allsubs) or (k in ("seek", "ackpred", "seeksnap") and len(t) != 1):
+                        if (k in ("publish", "dlforward") and t != allsubs) or (k in ("seek", "ackpred", "seeksnap", "dlpred") and len(t) != 1):
                             continue
                         s2 = dict(s)
                         s2["kinds"] = {"x1": k}
